@@ -258,6 +258,12 @@ func TestVerifC18Migrate(t *testing.T) {
 		"nested-decoy":           strings.Replace(good, "\"description\": \"d\"", "\"description\": {\"signatures\": [1,2]}", 1),
 		"array-at-top":           good[strings.Index(good, "[") : strings.LastIndex(good, "]")+1],
 		"empty-file-space":       " ",
+		"double-closer":          replaceLast(good, "]", "]]"),
+		"signatures-is-object":   good[:strings.Index(good, "[")] + "{}" + good[strings.LastIndex(good, "]")+1:],
+		"signatures-is-string":   good[:strings.Index(good, "[")] + "\"x\"" + good[strings.LastIndex(good, "]")+1:],
+		"key-inside-array":       "[\"signatures\", " + good[strings.Index(good, "["):strings.LastIndex(good, "]")+1] + "]",
+		"second-signatures-key":  strings.TrimSuffix(strings.TrimSpace(good), "}") + ", \"signatures\": []}",
+		"concatenated-documents": good + good,
 	}
 	var mk []string
 	for k := range menu {
